@@ -8,7 +8,7 @@
    implementation's array Dijkstra, clustering and converters with the model is the correspondence. *)
 From Coq Require Import String ZArith List Bool.
 From XV Require Import Base.Label Base.LSet Base.ODict Base.Attr Base.Outcome Model.Hypergraph Model.Stats Model.Graph
-  Proofs.HgViews Proofs.HgInv Proofs.HgStep Proofs.GraphProofs.
+  Proofs.HgViews Proofs.HgInv Proofs.HgStep Proofs.GraphProofs Proofs.LineGraphProofs Proofs.BipartiteRoundTrip Proofs.LccProofs.
 Import ListNotations.
 
 Lemma reachable_W1 ops : admissible_history hg_empty ops -> W1 (run ops hg_empty) /\ NoDup (ekeys (run ops hg_empty)).
@@ -90,6 +90,36 @@ Theorem C14_encapsulation_acyclic : forall ops t a b,
   In (a, b) (dag_links s t) -> (esize s b < esize s a)%nat.
 Proof. intros ops t a b A s. apply dag_links_decrease. apply (reachable_W1 ops A). Qed.
 Print Assumptions C14_encapsulation_acyclic.
+
+(* s-line graph: exactly the pairs of edges (in edge order) sharing at least s nodes, weighted by the
+   size of the intersection and, for the normalised weight, the smaller of the two sizes *)
+Theorem C14_line_graph_sound : forall sv es e1 e2 w, In (e1, e2, w) (line_links sv es) ->
+  exists i j m1 m2, (i < j < length es)%nat /\ nth i es (LNone, []) = (e1, m1) /\ nth j es (LNone, []) = (e2, m2) /\
+                    (sv <= inter_size m1 m2)%Z /\ w = (inter_size m1 m2, Z.min (zlen m1) (zlen m2)).
+Proof. exact line_links_sound. Qed.
+Print Assumptions C14_line_graph_sound.
+
+Theorem C14_line_graph_complete : forall sv es i j e1 e2 m1 m2,
+  (i < j < length es)%nat -> nth i es (LNone, []) = (e1, m1) -> nth j es (LNone, []) = (e2, m2) ->
+  (sv <= inter_size m1 m2)%Z ->
+  In (e1, e2, (inter_size m1 m2, Z.min (zlen m1) (zlen m2))) (line_links sv es).
+Proof. exact line_links_complete. Qed.
+Print Assumptions C14_line_graph_complete.
+
+(* bipartite graph: a link (i, n + j) exactly when the i-th node is a member of the j-th edge *)
+Theorem C14_bipartite_links : forall s i k, Inv s ->
+  (In (i, k) (bipartite_links s) <->
+   exists j, (j < length (h_edge s))%nat /\ k = (length (keys (h_node s)) + j)%nat /\ (i < length (keys (h_node s)))%nat /\
+             In (nth i (keys (h_node s)) LNone) (snd (nth j (h_edge s) (LNone, [])))).
+Proof. exact In_bipartite_links. Qed.
+Print Assumptions C14_bipartite_links.
+
+(* the search used inside the mutating methods (cleanup, largest component in place) computes the
+   same reachability class *)
+Theorem C14_inplace_component_agrees : forall s v x, W1 s -> In v (nkeys s) ->
+  (In x (Hypergraph.component s v) <-> In x (Graph.component s v)).
+Proof. exact old_component_agrees. Qed.
+Print Assumptions C14_inplace_component_agrees.
 
 Open Scope Z_scope.
 Example C14_nonvacuous :
